@@ -284,6 +284,37 @@ func c03Routing(c *Ctx, p *Prog, m *Model) {
 	if fw == nil {
 		r.Unk("R03.2", "Entry.findWriter", "-", "not found")
 	} else {
+		// the selector is judged in the context of its call from the sink: its parameters stand for the sink's
+		// receiver / writer set / level (so it may be a method of the logger or a function taking the set)
+		subst := map[ssa.Value]ssa.Value{}
+		var sinkRecv, sinkLvl ssa.Value = receiver(fw), nil
+		if len(fw.Params) > 1 {
+			sinkLvl = fw.Params[len(fw.Params)-1]
+		}
+		for sink := range m.SinkFns {
+			for _, cs := range callsTo(sink, fw) {
+				for i, prm := range fw.Params {
+					if i < len(cs.Common().Args) {
+						subst[prm] = cs.Common().Args[i]
+					}
+				}
+				sinkRecv = receiver(sink)
+				if k := m.levelParamIndex(sink); k >= 0 {
+					sinkLvl = sink.Params[k]
+				}
+			}
+		}
+		res := func(v ssa.Value) ssa.Value {
+			v = strip(v)
+			if w, ok := subst[v]; ok {
+				return strip(w)
+			}
+			return v
+		}
+		isOwnSet := func(v ssa.Value) bool {
+			b, ok := isFieldLoadOf(res(v), "Entry", "writer")
+			return ok && res(b) == sinkRecv
+		}
 		var own, def *ssa.Call
 		for _, cs := range callsTo(fw, get) {
 			call, isCall := cs.(*ssa.Call)
@@ -291,7 +322,7 @@ func c03Routing(c *Ctx, p *Prog, m *Model) {
 				continue
 			}
 			a0 := call.Common().Args[0]
-			if b, ok := isFieldLoadOf(a0, "Entry", "writer"); ok && b == ssa.Value(receiver(fw)) {
+			if isOwnSet(a0) {
 				own = call
 			} else if g, ok := globalLoad(a0); ok && nm(g) == "defaultWriter" {
 				def = call
@@ -300,12 +331,12 @@ func c03Routing(c *Ctx, p *Prog, m *Model) {
 		var probs []string
 		if own == nil {
 			probs = append(probs, "the logger's own writer set is not consulted")
-		} else if own.Common().Args[1] != ssa.Value(fw.Params[1]) {
+		} else if res(own.Common().Args[1]) != sinkLvl {
 			probs = append(probs, "own set asked for another level")
 		}
 		if def == nil {
 			probs = append(probs, "no fallback to the package default writers")
-		} else if def.Common().Args[1] != ssa.Value(fw.Params[1]) {
+		} else if res(def.Common().Args[1]) != sinkLvl {
 			probs = append(probs, "the default set is asked for another level")
 		}
 		if own != nil && def != nil {
@@ -318,14 +349,21 @@ func c03Routing(c *Ctx, p *Prog, m *Model) {
 				}
 				return false
 			}
-			for _, a := range assignments([]string{"writer!=nil", "own==nil"}, func(a map[string]bool) bool { return a["writer!=nil"] || a["own==nil"] }) {
+			// (when Get returns a concrete list type, its answer converted to the interface is never nil: that row is not a case)
+			_, getIface := get.Signature.Results().At(0).Type().Underlying().(*types.Interface)
+			for _, a := range assignments([]string{"writer!=nil", "own==nil"}, func(a map[string]bool) bool {
+				if a["writer!=nil"] && a["own==nil"] && !getIface {
+					return false
+				}
+				return a["writer!=nil"] || a["own==nil"]
+			}) {
 				t := walkDecision(fw.Blocks[0], a, func(cond ssa.Value) (string, bool) {
 					bo, ok := cond.(*ssa.BinOp)
 					if !ok || (bo.Op != token.EQL && bo.Op != token.NEQ) || !isNilConst(bo.Y) {
 						return "", false
 					}
 					name := ""
-					if b, ok := isFieldLoadOf(bo.X, "Entry", "writer"); ok && b == ssa.Value(receiver(fw)) {
+					if isOwnSet(bo.X) {
 						name = "writer!=nil"
 						if bo.Op == token.EQL {
 							a["¬writer!=nil"] = !a["writer!=nil"]
@@ -419,6 +457,21 @@ func c03Routing(c *Ctx, p *Prog, m *Model) {
 			if cal := calleeOf(cs); cal != nil && nm(cal) == "Reset" {
 				ok = true
 			}
+		}
+		if rs := p.Method(p.Slog, "dualWriter", "Reset"); !ok && rs != nil {
+			// or it builds the very state Reset installs (same value terms for the three lists; nil = zero value)
+			te := newTermEval(p)
+			state := func(fn *ssa.Function) map[string]string {
+				out := map[string]string{}
+				for _, ef := range te.effectsOf(fn, nil) {
+					if ef.Struct == "dualWriter" && ef.Kind == "store" && ef.Val.Op != "nil" {
+						out[ef.Field] = ef.Val.String()
+					}
+				}
+				return out
+			}
+			a, b := state(nd), state(rs)
+			ok = len(a) > 0 && fmt.Sprint(a) == fmt.Sprint(b)
 		}
 		r.Check(ok, "R03.2", "newDualWriter", p.FuncPos(nd), "a new writer set starts from Reset()", "a new writer set is not initialised by Reset()")
 	}
@@ -737,9 +790,13 @@ func c03Frames(c *Ctx, p *Prog, m *Model) {
 	if set := p.Method(p.Slog, "dualWriter", "Set"); set != nil {
 		var clr, add ssa.Instruction
 		recv := receiver(set)
+		derives := false
 		for _, ef := range te.effectsOf(set, nil) {
 			if ef.Struct != "dualWriter" || ef.Field != "Normal" || !ef.Base.isParam(recv) || ef.Kind != "store" {
 				continue
+			}
+			if ef.Val.mentionsField(recv, "Normal") {
+				derives = true
 			}
 			o := ef.Instr
 			if len(ef.Chain) > 0 {
@@ -753,7 +810,12 @@ func c03Frames(c *Ctx, p *Prog, m *Model) {
 				add = o
 			}
 		}
-		r.Check(clr != nil && add != nil && after(clr, add) && !after(add, clr), "R03.3", "op:dualWriter.Set:order", p.FuncPos(set), "clears the list, then adds the writer", "Set does not clear the normal list before adding the writer (it would append instead of replace)")
+		if !derives && add != nil {
+			clr = add // nothing is derived from the old list: the store replaces it by construction (shape decided above)
+			r.Ok("R03.3", "op:dualWriter.Set:order", p.FuncPos(set), "installs a list that does not derive from the old one")
+		} else {
+			r.Check(clr != nil && add != nil && after(clr, add) && !after(add, clr), "R03.3", "op:dualWriter.Set:order", p.FuncPos(set), "clears the list, then adds the writer", "Set does not clear the normal list before adding the writer (it would append instead of replace)")
+		}
 	}
 	// no other function writes the three lists
 	allowed := allowedListWriters(p, m)
@@ -764,6 +826,9 @@ func c03Frames(c *Ctx, p *Prog, m *Model) {
 		}
 		if !allowed[top] {
 			for _, fs := range fieldStores(fn) {
+				if _, fresh := fs.Base.(*ssa.Alloc); fresh {
+					continue // a writer set under construction in this function (judged by R03.2 newDualWriter)
+				}
 				if fs.Struct == "dualWriter" && fs.Kind != "addr-escape" {
 					r.Bad("R03.3", "foreign-writer:"+shortName(fn)+":"+fs.Field, p.Pos(instrPos(fs.Instr)), "%s writes the destination list %s outside the documented operations", shortName(fn), fs.Field)
 				}
@@ -1148,6 +1213,7 @@ func c03Notify(c *Ctx, p *Prog, m *Model) {
 	// the list type forwards
 	if fwd := p.Method(p.Slog, "LWs", "SetLevel"); fwd != nil {
 		direct, wrapped := false, false
+		te := newTermEval(p)
 		for _, cs := range callsIn(fwd) {
 			if invokeName(cs) != "SetLevel" || !inLoop(cs.Block()) {
 				continue
@@ -1155,16 +1221,43 @@ func c03Notify(c *Ctx, p *Prog, m *Model) {
 			if len(cs.Common().Args) != 1 || cs.Common().Args[0] != ssa.Value(fwd.Params[1]) {
 				continue
 			}
-			// receiver: assertion on the member or on member.(*logwr).Writer
-			if ex, ok := cs.Common().Value.(*ssa.Extract); ok {
-				if ta, ok := ex.Tuple.(*ssa.TypeAssert); ok {
-					if _, _, f, isF := fieldLoad(ta.X); isF && nm(f) == "Writer" {
-						wrapped = true
-					} else {
-						direct = true
+			// receiver: the member itself asserted LevelSettable, or member.(*logwr).Writer asserted so (directly or
+			// through a private resolver helper): read off the receiver's term
+			for _, alt := range te.eval(cs.Common().Value, nil).alts() {
+				if alt.Op != "assert" || !strings.Contains(alt.Name, "LevelSettable") || len(alt.Args) != 1 {
+					continue
+				}
+				if x := alt.Args[0]; x.Op == "field" && x.Name == "Writer" {
+					wrapped = true
+				} else {
+					direct = true
+				}
+			}
+		}
+		// every member is told: the loop has its natural exit only and covers the whole list
+		var anchor *ssa.Call
+		for _, cs := range callsIn(fwd) {
+			if call, ok := cs.(*ssa.Call); ok && invokeName(cs) == "SetLevel" && inLoop(cs.Block()) {
+				anchor = call
+			}
+		}
+		if anchor != nil {
+			loop := loopBlocks(fwd)
+			var exits []string
+			natural := 0
+			for b := range loop {
+				for _, sc := range b.Succs {
+					if !loop[sc] {
+						if b.Dominates(anchor.Block()) {
+							natural++
+						} else {
+							exits = append(exits, p.Pos(instrPos(b.Instrs[len(b.Instrs)-1])))
+						}
 					}
 				}
 			}
+			sort.Strings(exits)
+			r.Check(len(exits) == 0 && natural == 1, "R03.6", "forward:LWs.SetLevel:all-members", p.Pos(instrPos(anchor)), "the loop over the members is left only at its end", fmt.Sprintf("the loop that tells the members the severity can be left early (at %v): members after that point are not told", exits))
 		}
 		r.Check(direct && wrapped, "R03.6", "forward:LWs.SetLevel", p.FuncPos(fwd), "forwards the level to members that are LevelSettable themselves or wrap one", "LWs.SetLevel does not forward the level to both kinds of member (a LevelSettable member, and a plain writer wrapped by Add*/Set*)")
 	} else {
